@@ -3,8 +3,11 @@
 # Confirms: (1) suite passes with the change, (2) demo fails with the change, (3) demo passes without it.
 SD="$1"; OUT="$2"
 export GOFLAGS=-mod=mod GOPROXY=off GOSUMDB=off GOTOOLCHAIN=local GOWORK=off
-D=$(mktemp -d /tmp/seedverify.XXXXXX)
-trap 'rm -rf "$D"' EXIT
+SLOTS=/tmp/dcpverif-scratch; mkdir -p "$SLOTS"; k=0
+while ! mkdir "$SLOTS/vlock.$k" 2>/dev/null; do k=$(( (k+1) % 32 )); done
+D="$SLOTS/v$k"; rm -rf "$D"; mkdir -p "$D"   # fixed paths: build-cache friendly
+trap 'rm -rf "$D"; rmdir "$SLOTS/vlock.$k"' EXIT
+case "$D" in /tmp/*) ;; *) echo "refusing to work outside /tmp: [$D]" >&2; exit 9;; esac
 rsync -a --exclude .git /repo/ "$D/with/"; rsync -a --exclude .git /repo/ "$D/without/"
 (cd "$D/with" && patch -p1 -s < "$SD/patch.diff") || { echo "$SD PATCH-FAILED" > "$OUT"; exit 0; }
 (cd "$D/with" && go build ./... ) > "$D/build.log" 2>&1 || { echo "$SD BUILD-FAILED" > "$OUT"; exit 0; }
